@@ -441,7 +441,9 @@ def to_turtle(triples, group=True, use_a=True, dialect="standard", prefixed_cust
     separate tokens; datatypes written with the xsd: prefix or as full IRIs)."""
     # stable_labels: the labels do not depend on the order of the statements (a permuted document then differs from the
     # original in statement order only)
-    table = _prefix_table(sorted(triples, key=repr) if stable_labels else triples)
+    table = _prefix_table(triples)
+    if stable_labels:
+        table = {ns: "n%d" % i for i, ns in enumerate(sorted(table))}     # depends on the set of namespaces only
     if label_salt:
         # rotate the labels: the same label then names different namespaces in different documents of one delivery
         keys = list(table)
